@@ -412,7 +412,7 @@ ImplCloneFromStep(c, r) ==
 \* produce for it.  Newlines are written "|" here and in the traces.
 \* Probe semantics: the own Debug of a probe with value x prints "p<x>", the
 \* custom method prints "m<x>" (single-line, so the pretty printer does not
-\* re-indent them).
+\* re-indent them); in alternate mode they print "P<x>" / "M<x>".
 NoName == "<none>"
 
 \* names of the rendering (facts about the Rust source, supplied with each
@@ -457,7 +457,11 @@ DebugPrintable(c) ==
      /\ (DbgShown(c, v) = {}) => EffName(c, v, [type |-> "T", fields |-> <<>>]) # NoName
      /\ \A i \in FieldIdx(c, v) : c.variants[v].fields[i].key # "" => (EffNamed(c, v) /\ i \in DbgShown(c, v))
 
-ValText(via, x) == (IF via = Method THEN "m" ELSE "p") \o ToString(x)
+\* the probes print in lower case in compact mode and in upper case when the
+\* formatter's alternate flag reaches them (so a field formatted outside the
+\* builder, e.g. pre-rendered with "{:?}", is noticed)
+ValText(via, x, alt) ==
+  (IF via = Method THEN (IF alt THEN "M" ELSE "m") ELSE (IF alt THEN "P" ELSE "p")) \o ToString(x)
 
 RECURSIVE JoinWith(_, _)
 JoinWith(items, sep) ==
@@ -473,7 +477,7 @@ RenderDebug(c, a, nm, alt) ==
   LET v == a.v
       name == EffName(c, v, nm)
       shown == SortedSeq(DbgShown(c, v))
-      vals == [p \in DOMAIN shown |-> ValText(DbgVia(c, v, shown[p]), a.f[shown[p]])]
+      vals == [p \in DOMAIN shown |-> ValText(DbgVia(c, v, shown[p]), a.f[shown[p]], alt)]
       kvs == [p \in DOMAIN shown |-> EffKey(c, v, shown[p], nm) \o ": " \o vals[p]]
       shownName == IF name = NoName THEN "" ELSE name
   IN IF c.variants[v].style = "unit" /\ c.kind = "enum" THEN name
